@@ -327,7 +327,7 @@ def configs_for(ctx, locs):
             for i, s in enumerate(SEEDS) for j, c in enumerate(CWDS) for l in locs for m in MODES]
     for f in full:
         if f["mode"] == "fresh":
-            f["batch"] = 50
+            f["batch"] = 100
     if ctx.thorough:
         import random
         random.Random(606).shuffle(full)       # a diverse first wave; the order is fixed
@@ -345,10 +345,10 @@ def configs_for(ctx, locs):
         return sub
     return [{"seed": "1", "cwd": "root", "locale": "C", "mode": "long", "home": 1},
             {"seed": "4242", "cwd": "decoy", "locale": locs[-1], "mode": "gather", "home": 0},
-            {"seed": "random", "cwd": "empty", "locale": "C", "mode": "fresh", "batch": 10, "home": 1},
+            {"seed": "random", "cwd": "empty", "locale": "C", "mode": "fresh", "batch": 25, "home": 1},
             {"seed": "random", "cwd": "decoy", "locale": "C.UTF-8", "mode": "long", "home": 0},
             {"seed": "1", "cwd": "empty", "locale": locs[-1], "mode": "gather", "home": 1},
-            {"seed": "4242", "cwd": "root", "locale": "C.UTF-8", "mode": "fresh", "batch": 10, "home": 0}]
+            {"seed": "4242", "cwd": "root", "locale": "C.UTF-8", "mode": "fresh", "batch": 25, "home": 0}]
 
 
 def cfg_name(c):
@@ -367,7 +367,7 @@ def run(ctx: vlib.Ctx):
     drv = proj.driver()
     facts = drv.batch([{"op": "facts"}])[0]
     ctx.extra["summary_facts"] = facts
-    ctx.n_facts = 8
+    ctx.n_facts = 0      # the `decide` facts over Gen.summary are theorems of Props/C06 and counted there
     # timestamp keys: read from the generated summary (the only fields the view masks)
     gen_text = (vlib.LEAN / PROJECT / "Octave" / "Gen" / "Effects.lean").read_text()
     m = re.search(r"def timestampKeys[^\n]*\n\s*\[(.*)\]", gen_text)
@@ -425,25 +425,25 @@ def _run(ctx, drv, lab, ts_keys):
     ref_cfg = {"seed": "0", "cwd": "repo", "locale": "C.UTF-8", "mode": "fresh", "batch": 1, "home": 0}
     for f in findings:
         w = dict(f["witness"], id=900000)
-        outs = []
-        for cfg in (ref_cfg, dict(ref_cfg, seed="1"), dict(ref_cfg, seed="4242", cwd="root")):
-            outs.append(view(run_worker([{"cmd": "call", "call": w}], cfg, lab)[0], ts_keys))
         hist = [strip_call(c) for c in calls[:25]]
-        reps = run_worker([{"cmd": "call", "call": c} for c in hist] + [{"cmd": "call", "call": w}], dict(ref_cfg, mode="long"), lab)
-        outs.append(view(reps[-1], ts_keys))
+        jobs = [([{"cmd": "call", "call": w}], ref_cfg), ([{"cmd": "call", "call": w}], dict(ref_cfg, seed="4242", cwd="root")),
+                ([{"cmd": "call", "call": c} for c in hist] + [{"cmd": "call", "call": w}], dict(ref_cfg, seed="1", mode="long"))]
+        with ThreadPoolExecutor(3) as ex:
+            outs = [view(reps[-1], ts_keys) for reps in ex.map(lambda j: run_worker(j[0], j[1], lab), jobs)]
         cls = CLASSES.get(f["cls"])
         in_class = bool(cls and cls(w))
         if len(set(outs)) > 1 and in_class:
             ctx.known_reproduced.append((f, f"{len(set(outs))} distinct masked envelopes in {len(outs)} runs of the witness"))
         elif not in_class:
             ctx.notes.append(f"witness of {f['id']} is no longer inside its class predicate")
-
     lap("known-findings")
     # ---- reference run: a fresh process for every call ---------------------------------------------------
-    # (beyond the first 120 calls the reference uses batches of 4: "a fresh process per call or per small batch")
-    ref, _ = execute(calls[:120], ref_cfg, lab, 0)
-    if len(calls) > 120:
-        more, _ = execute(calls[120:], dict(ref_cfg, batch=4), lab, 0)
+    # "a fresh process per call (or per small batch)": one process per call for the first 40 (quick) / 200 (thorough)
+    # calls, batches of 5 beyond — process start-up (1 s of imports) is what the reference run costs
+    solo = 200 if ctx.thorough else 40
+    ref, _ = execute(calls[:solo], ref_cfg, lab, 0)
+    if len(calls) > solo:
+        more, _ = execute(calls[solo:], dict(ref_cfg, batch=5), lab, 0)
         ref.update(more)
     ref_view = {}
     kf_paths = {}
@@ -504,7 +504,8 @@ def _run(ctx, drv, lab, ts_keys):
         if not rep["listed"] or not rep["benign"]:
             cid, cname = state_changes[key][0]
             ctx.corr_disagreements.append({"case": {"binding": list(key), "first_call": strip_call(byid[cid]), "cfg": cname, "occurrences": len(state_changes[key])},
-                                           "model": "Gen/Effects lists no (benign) write to this binding" if not rep["listed"] else "listed but not benign",
+                                           "model": ("Gen/Effects lists only an alias escape of this binding, which the policy calls benign — refuted" if rep.get("escape_only")
+                                                     else "Gen/Effects lists no write to this binding") if not rep["listed"] else "listed but not benign",
                                            "impl": "its deep structural digest changed while the call was served", "view": "module/class/tool-instance state"})
     ctx.extra["dynamic_state_changes"] = [list(k) + [len(v)] for k, v in sorted(state_changes.items())]
     # ---- correspondence 2: every iteration over a set object that really happens is known to the analysis --------------
